@@ -421,6 +421,21 @@ pub fn generate(prop: &str, tier: &str, seed: u64, out: &mut impl Write) {
         }
         "C04" | "C05" => {
             let rtu = prop == "C04";
+            if !rtu {
+                // PDUs around the capacity of the 16-bit MBAP length field
+                for n in [65532usize, 65533, 65534, 65535, 70000] {
+                    let d = vec![0x5Au8; n];
+                    w!("tcpenc req 1 9 CUS C41 {} {} 00", hex_of(&d), n + 10);
+                    w!("tcpenc rsp 1 9 CUS C41 {} {} 00", hex_of(&d), n + 10);
+                    w!("#@ C05 len req {n}"); w!("#@ C05 len rsp {n}");
+                }
+            }
+            for bc in [1usize, 3, 5] {
+                // a transplanted decoded `Data` (odd byte count) framed as a write request
+                let mut p = vec![3u8, bc as u8]; p.extend(r.bytes(bc)); let h = hex_of(&p);
+                if rtu { w!("rtuenc req 17 RWMX 1 2 3 {h} 40 A5"); w!("#@ C04 req 17 RWMX 1 2 3 {h}"); }
+                else { w!("tcpenc req 7 9 WMRX 5 {h} 40 A5"); w!("#@ C05 req 7 9 WMRX 5 {h}"); w!("tcpenc req 7 9 RWMX 1 2 3 {h} 40 A5"); w!("#@ C05 req 7 9 RWMX 1 2 3 {h}"); }
+            }
             let n = scale(tier, 1200, 30000);
             for i in 0..n {
                 let id = (i % 256) as u8; // every slave / unit id
@@ -985,6 +1000,13 @@ pub fn generate(prop: &str, tier: &str, seed: u64, out: &mut impl Write) {
             } }
         }
         "C19" => {
+            // a `Data` taken from a DECODED register response (possibly with a dangling odd byte) reused in a request
+            for bc in [1usize, 2, 3, 5, 9, 253, 255] { for fc in [3u8, 4, 0x17] {
+                let mut p = vec![fc, bc as u8]; p.extend(r.bytes(bc));
+                let h = hex_of(&p);
+                w!("reqenc WMRX 7 {h} 300 A5"); w!("#@ C19 req WMRX 7 {h}");
+                w!("reqenc RWMX 1 2 3 {h} 300 A5"); w!("#@ C19 req RWMX 1 2 3 {h}");
+            } }
             let wsizes: Vec<usize> = (120..=135usize).chain([136, 150, 200, 255, 256, 257, 300, 1000]).chain(if tier == "thorough" { (136..=300).collect::<Vec<_>>() } else { vec![] }).chain([32767, 32768, 65535, 65536, 70000]).collect();
             for n in wsizes {
                 let ws = words(r, n); let s = words_str(&ws);
